@@ -11,6 +11,12 @@ All functions take (rng, prog) and modify the program value in place (it stays w
 from .gen import frame, rec, need
 
 
+def _int_inputs(prog):
+    """input shares holding plain integers (typed string / boolean inputs exist with the `needs` profile)"""
+    ok = [s for s in prog["inputs"] if type(prog["shares"].get(s)) is int]
+    return ok or ["in.a"]
+
+
 def _keys_of(prog, f):
     return prog["framers"][f]["frames"]
 
@@ -84,7 +90,7 @@ def branchy_condaux(rng, prog, framer=None):
     fr = prog["frames"][main]
     fr["precur"] = [a for a in fr["precur"] if a.get("k") != "auxif"]
     fr["precur"].insert(rng.randint(0, len(fr["precur"])),
-                        {"k": "auxif", "aux": x, "needs": [need("cmp", False, share=rng.choice(prog["inputs"]), op="==", goal=1)]})
+                        {"k": "auxif", "aux": x, "needs": [need("cmp", False, share=rng.choice(_int_inputs(prog)), op="==", goal=1)]})
     # no plain-aux or guard obstacles on the way in
     prog["framers"][f]["first"] = other
     # the sibling branches move between each other now and then
